@@ -1319,7 +1319,7 @@ def _alpha_value(color, alpha_float):
                 return color
         else:
             if 0 <= color <= 1.0:
-                return color * 255.0
+                return int(round(color * 255.0))
     raise ValueError(f'Invalid alpha channel value: {color}')
 
 
